@@ -1,0 +1,205 @@
+//go:build verif
+
+package mq
+
+import "io"
+
+// This file is compiled only with the build tag "verif". It adds thin
+// exported wrappers around unexported codec internals so that an
+// external verification harness can enumerate them directly. It adds
+// code only; nothing in the package refers to it.
+
+// VerifVbintFill runs vbint(v).fill on a zeroed buffer of the given
+// length at offset i and returns the buffer and the reported width.
+func VerifVbintFill(v uint, buflen, i int) ([]byte, int) {
+	buf := make([]byte, buflen)
+	n := vbint(v).fill(buf, i)
+	return buf, n
+}
+
+// VerifVbintWidth returns vbint(v).width().
+func VerifVbintWidth(v uint) int { return vbint(v).width() }
+
+// VerifVbintUnmarshal runs the in-memory decoder on data, starting
+// from the zero value. It returns the decoded value, the width the
+// guarded reader would advance by, and the error.
+func VerifVbintUnmarshal(data []byte) (uint, int, error) {
+	var v vbint
+	err := v.UnmarshalBinary(data)
+	return uint(v), v.width(), err
+}
+
+// VerifVbintReadFrom runs the streaming decoder.
+func VerifVbintReadFrom(r io.Reader) (uint, int64, error) {
+	var v vbint
+	n, err := v.ReadFrom(r)
+	return uint(v), n, err
+}
+
+// VerifWire names a wire type for VerifWireDecode and VerifWireFill.
+type VerifWire int
+
+const (
+	VerifU8 VerifWire = iota
+	VerifU16
+	VerifU32
+	VerifBool
+	VerifBin
+	VerifRaw
+	VerifVb
+	VerifUserProp
+	VerifIdent
+)
+
+// VerifValue is a wire value in neutral form.
+type VerifValue struct {
+	N uint64
+	B bool
+	S []byte
+	K []byte // user property key
+}
+
+func verifNew(k VerifWire, v VerifValue) wireType {
+	switch k {
+	case VerifU8:
+		x := bits(v.N)
+		return &x
+	case VerifU16:
+		x := wuint16(v.N)
+		return &x
+	case VerifU32:
+		x := wuint32(v.N)
+		return &x
+	case VerifBool:
+		x := wbool(v.B)
+		return &x
+	case VerifBin:
+		x := bindata(v.S)
+		return &x
+	case VerifRaw:
+		x := rawdata(v.S)
+		return &x
+	case VerifVb:
+		x := vbint(v.N)
+		return &x
+	case VerifUserProp:
+		x := UserProp{string(v.K), string(v.S)}
+		return &x
+	case VerifIdent:
+		x := Ident(v.N)
+		return &x
+	}
+	panic("verif: unknown wire kind")
+}
+
+func verifValue(k VerifWire, w wireType) VerifValue {
+	switch x := w.(type) {
+	case *bits:
+		return VerifValue{N: uint64(*x)}
+	case *wuint16:
+		return VerifValue{N: uint64(*x)}
+	case *wuint32:
+		return VerifValue{N: uint64(*x)}
+	case *wbool:
+		return VerifValue{B: bool(*x)}
+	case *bindata:
+		return VerifValue{S: []byte(*x)}
+	case *rawdata:
+		return VerifValue{S: []byte(*x)}
+	case *vbint:
+		return VerifValue{N: uint64(*x)}
+	case *UserProp:
+		return VerifValue{K: []byte(x[0]), S: []byte(x[1])}
+	case *Ident:
+		return VerifValue{N: uint64(*x)}
+	}
+	panic("verif: unknown wire type")
+}
+
+// VerifWireDecode runs UnmarshalBinary of the named wire type on data,
+// starting from the given initial value, and returns the resulting
+// value, its width() and the error.
+func VerifWireDecode(k VerifWire, init VerifValue, data []byte) (VerifValue, int, error) {
+	w := verifNew(k, init)
+	err := w.UnmarshalBinary(data)
+	return verifValue(k, w), w.width(), err
+}
+
+// VerifWireFill runs fill of the named wire type holding v on a zeroed
+// buffer of length buflen at offset i.
+func VerifWireFill(k VerifWire, v VerifValue, buflen, i int) ([]byte, int) {
+	buf := make([]byte, buflen)
+	n := verifNew(k, v).fill(buf, i)
+	return buf, n
+}
+
+// VerifWireFillProp runs fillProp likewise.
+func VerifWireFillProp(k VerifWire, v VerifValue, buflen, i int, id Ident) ([]byte, int) {
+	buf := make([]byte, buflen)
+	n := verifNew(k, v).fillProp(buf, i, id)
+	return buf, n
+}
+
+// VerifBufferGet runs buffer.get for the named wire type on a buffer
+// positioned at offset i and returns value, new offset and error.
+func VerifBufferGet(k VerifWire, data []byte, i int) (VerifValue, int, error) {
+	b := &buffer{data: data, i: i}
+	w := verifNew(k, VerifValue{})
+	b.get(w)
+	return verifValue(k, w), b.i, b.err
+}
+
+// VerifFixed returns the first header byte held by a packet and
+// whether the packet type has one.
+func VerifFixed(p Packet) (byte, bool) {
+	switch p := p.(type) {
+	case *Connect:
+		return byte(p.fixed), true
+	case *ConnAck:
+		return byte(p.fixed), true
+	case *Publish:
+		return byte(p.fixed), true
+	case *PubAck:
+		return byte(p.fixed), true
+	case *PubRec:
+		return byte(p.fixed), true
+	case *PubRel:
+		return byte(p.fixed), true
+	case *PubComp:
+		return byte(p.fixed), true
+	case *Subscribe:
+		return byte(p.fixed), true
+	case *SubAck:
+		return byte(p.fixed), true
+	case *Unsubscribe:
+		return byte(p.fixed), true
+	case *UnsubAck:
+		return byte(p.fixed), true
+	case *PingReq:
+		return byte(p.fixed), true
+	case *PingResp:
+		return byte(p.fixed), true
+	case *Disconnect:
+		return byte(p.fixed), true
+	case *Auth:
+		return byte(p.fixed), true
+	case *Undefined:
+		return byte(p.fixed), true
+	}
+	return 0, false
+}
+
+// VerifFirstByteString renders a first header byte.
+func VerifFirstByteString(b byte) string { return firstByte(b).String() }
+
+// VerifConnectFlagsString renders CONNECT flags.
+func VerifConnectFlagsString(b byte) string { return connectFlags(b).String() }
+
+// VerifConnAckFlagsString renders CONNACK flags.
+func VerifConnAckFlagsString(b byte) string { return connAckFlags(b).String() }
+
+// VerifStars is stars().
+func VerifStars(n int) string { return stars(n) }
+
+// VerifProtocolNameVar exposes the package-level protocol name slice.
+func VerifProtocolNameVar() []byte { return mqtt5 }
